@@ -74,7 +74,24 @@ fn file_xml(f: &FileRec) -> String {
         ));
     }
     s.push_str("</exchangeRateMonthList>\n");
+    // "garbled": for the library (which receives text) the document is cut off in the middle of an element
+    if f.rates.iter().any(|(_, sign)| sign == "garbled") {
+        let cut = s.find("<rateNew>").map(|p| p + 4).unwrap_or(s.len() / 2);
+        s.truncate(cut);
+    }
     s
+}
+
+/// the bytes written to disk for the CLI: a "garbled" file is a complete document saved as ISO-8859-1 (a byte that is
+/// not valid UTF-8 inside a country name), which the tool cannot read as text
+fn file_bytes(f: &FileRec) -> Vec<u8> {
+    if f.rates.iter().any(|(_, sign)| sign == "garbled") {
+        let mut ok = f.clone();
+        for r in ok.rates.iter_mut() { r.1 = "pos".into(); }
+        let text = file_xml(&ok).replace("<countryName>X</countryName>", "<countryName>Cura\u{1}ao</countryName>");
+        return text.into_bytes().into_iter().map(|b| if b == 1 { 0xE7 } else { b }).collect();
+    }
+    file_xml(f).into_bytes()
 }
 
 fn file_name(f: &FileRec, all: &[FileRec]) -> String {
@@ -359,7 +376,7 @@ fn main() {
             if std::fs::create_dir_all(&folder).is_err() { eprintln!("cannot create {folder:?}"); std::process::exit(2); }
             for f in &configs[*ci] {
                 let p = folder.join(file_name(f, &configs[*ci]));
-                let body = if f.ext == "xml" { file_xml(f) } else { "this is not xml".to_string() };
+                let body = if f.ext == "xml" { file_bytes(f) } else { b"this is not xml".to_vec() };
                 if std::fs::write(&p, body).is_err() { eprintln!("cannot write {p:?}"); std::process::exit(2); }
                 if let Ok(fh) = std::fs::File::options().write(true).open(&p) {
                     let _ = fh.set_modified(UNIX_EPOCH + Duration::from_secs(1_600_000_000 + f.mtime * 1000));
